@@ -37,12 +37,28 @@ int main(int argc, char **argv) {
   g_user = slurp(argv[1]); g_pw = slurp(argv[2]);
   g_mode_conv = !strcmp(argv[3], "conv");
   int e = atoi(argv[4]);
-  struct timespec a, b; clock_gettime(CLOCK_MONOTONIC, &a);
-  errno = e;
-  int rc = pam_sm_authenticate((pam_handle_t *)0x1, 0, argc - 5, (const char **)(argv + 5));
-  clock_gettime(CLOCK_MONOTONIC, &b);
-  long ms = (b.tv_sec - a.tv_sec) * 1000 + (b.tv_nsec - a.tv_nsec) / 1000000;
-  printf("RC %d MS %ld\n", rc, ms);
+  /* PAMDRV_SOCKS=path1,path2,...: several authentications in this one process, one per socket path
+   * (the module must not carry anything over from one call to the next) */
+  const char *socks = getenv("PAMDRV_SOCKS");
+  int nopt = argc - 5;
+  const char **opts = calloc(nopt + 2, sizeof(char *));
+  for (int i = 0; i < nopt; i++) opts[i] = argv[5 + i];
+  char *list = socks ? strdup(socks) : NULL;
+  char *tok = list ? strtok(list, ",") : NULL;
+  do {
+    char sockopt[600];
+    int n = nopt;
+    if (tok) { snprintf(sockopt, sizeof sockopt, "sock=%s", tok); opts[n++] = sockopt; }
+    struct timespec a, b; clock_gettime(CLOCK_MONOTONIC, &a);
+    errno = e;
+    int rc = pam_sm_authenticate((pam_handle_t *)0x1, 0, n, opts);
+    clock_gettime(CLOCK_MONOTONIC, &b);
+    long ms = (b.tv_sec - a.tv_sec) * 1000 + (b.tv_nsec - a.tv_nsec) / 1000000;
+    printf("RC %d MS %ld\n", rc, ms);
+    fflush(stdout);
+    tok = list ? strtok(NULL, ",") : NULL;
+  } while (tok);
+  free(list); free(opts);
   free(g_user); free(g_pw); free(g_item);
   return 0;
 }
